@@ -78,7 +78,8 @@ CCFails(g, sp, gsp, tol) ==
 
 \* ================================================================ the transducers
 Dc(k, x, y, p) == [k |-> k, x |-> x, y |-> y, p |-> p]
-\* case: [sim, N, start ("single" | "cherry"), sp (species graph or NoG), G (genes per species code)]
+\* case: [sim, N, start ("single" | "cherry"), sp (species graph or NoG), gm (gene -> species code), ...]:
+\* the CURRENT state of the arguments; what an earlier call saw is no input of the transducer
 Blank(c) == [sim |-> c.sim, N |-> c.N, start |-> c.start, ph |-> "grow", n |-> 0, par |-> <<>>, len |-> <<>>,
              kids |-> <<>>, tx |-> <<>>, act |-> <<>>, dead |-> {}, restarts |-> 0, seed |-> 0,
              sp |-> c.sp, gmap |-> <<>>, pools |-> <<>>, po |-> <<>>, ei |-> 0, rem |-> 0, gd |-> 0, out |-> NoG]
@@ -91,16 +92,16 @@ BDStart(c) ==
 KingStart(c) ==
     [Blank(c) EXCEPT !.n = c.N, !.par = [i \in 1..c.N |-> 0], !.len = [i \in 1..c.N |-> 0],
                      !.kids = [i \in 1..c.N |-> <<>>], !.tx = Ident(c.N), !.act = Ident(c.N)]
-\* genes of species code t are numbered consecutively in species-code order (gene taxon code = gene node id)
-GeneBase(G, t) == SumSeq(SubSeq(G, 1, t - 1))
+\* contained coalescent: c.gm[gene] = species taxon code, the CURRENT assignment held by the mapping argument
+\* (gene taxon code = gene node id); GMapOf(G): genes numbered consecutively in species-code order
 GMapOf(G) == Flatten([t \in 1..Len(G) |-> [j \in 1..G[t] |-> t]])
+GenesOf(gm, t) == SelectSeq(Ident(Len(gm)), LAMBDA i : gm[i] = t)
 CCStart(c) ==
-    LET sp == c.sp  ng == SumSeq(c.G)  po == Post(sp, sp.seed) IN
+    LET sp == c.sp  ng == Len(c.gm)  po == Post(sp, sp.seed) IN
     [Blank(c) EXCEPT !.n = ng, !.par = [i \in 1..ng |-> 0], !.len = [i \in 1..ng |-> 0], !.kids = [i \in 1..ng |-> <<>>],
-                     !.tx = Ident(ng), !.gmap = GMapOf(c.G), !.po = po, !.ei = 1,
+                     !.tx = Ident(ng), !.gmap = c.gm, !.po = po, !.ei = 1,
                      !.rem = sp.len[po[1]],
-                     !.pools = [x \in 1..sp.n |-> IF IsLeaf(sp, x) /\ sp.tx[x] \in 1..Len(c.G)
-                                                  THEN [j \in 1..c.G[sp.tx[x]] |-> GeneBase(c.G, sp.tx[x]) + j] ELSE <<>>]]
+                     !.pools = [x \in 1..sp.n |-> IF IsLeaf(sp, x) THEN GenesOf(c.gm, sp.tx[x]) ELSE <<>>]]
 InitOf(c) == CASE c.sim \in {"bd", "fast", "upb"} -> BDStart(c)
                [] c.sim = "king" -> KingStart(c)
                [] c.sim = "cc" -> CCStart(c)
@@ -228,10 +229,10 @@ CanonL(g, x) == [t |-> IF IsLeaf(g, x) THEN g.tx[x] ELSE 0, l |-> IF g.par[x] = 
                  k |-> {CanonL(g, c) : c \in KidSet(g, x)}]
 SameTree(g, h) == g.n = h.n /\ CanonL(g, g.seed) = CanonL(h, h.seed)
 
-\* final clauses of a finished model state
-FinalFails(s) ==
+\* final clauses of a finished model state; gm = the gene -> species assignment the mapping argument holds NOW
+FinalFails(s, gm) ==
     CASE s.sim \in {"bd", "fast", "upb"} -> BDFails(s.out, s.N, 0)
       [] s.sim = "king" -> KingFails(s.out, s.N, 0)
-      [] s.sim = "cc" -> CCFails(s.out, s.sp, [x \in 1..s.n |-> IF x <= Len(s.gmap) THEN s.gmap[x] ELSE 0], 0)
-                         \o KingFails(s.out, Len(s.gmap), 0)
+      [] s.sim = "cc" -> CCFails(s.out, s.sp, [x \in 1..s.out.n |-> IF x <= Len(gm) THEN gm[x] ELSE 0], 0)
+                         \o KingFails(s.out, Len(gm), 0)
 =============================================================================
